@@ -30,5 +30,25 @@ fn main() {
         .method(method("echo", "Echo", bin, false))
         .method(method("other", "Other", json, false))
         .build();
-    anemo_build::manual::Builder::new().compile(&[alpha, beta]);
+    // messages that encode to nothing (bincode) or next to nothing (json): unit, an empty struct, an empty vector
+    let tiny = |name: &str, route: &str, codec: &str, q: &str, r: &str| {
+        anemo_build::manual::Method::builder()
+            .name(name)
+            .route_name(route)
+            .request_type(q)
+            .response_type(r)
+            .codec_path(codec)
+            .build()
+    };
+    let gamma = anemo_build::manual::Service::builder()
+        .name("Gamma")
+        .package("")
+        .method(tiny("unit_bin", "UnitBin", bin, "()", "()"))
+        .method(tiny("unit_json", "UnitJson", json, "()", "()"))
+        .method(tiny("empty_bin", "EmptyBin", bin, "crate::codegen::Empty", "crate::codegen::Empty"))
+        .method(tiny("empty_json", "EmptyJson", json, "crate::codegen::Empty", "crate::codegen::Empty"))
+        .method(tiny("vec_bin", "VecBin", bin, "Vec<u8>", "Vec<u8>"))
+        .method(tiny("vec_json", "VecJson", json, "Vec<u8>", "Vec<u8>"))
+        .build();
+    anemo_build::manual::Builder::new().compile(&[alpha, beta, gamma]);
 }
